@@ -605,6 +605,8 @@ MUTANTS = [
          "    static void run(const Range& range, const Body& body, Partitioner& partitioner, task_group_context& context) {\n        {")]),
     dict(name='c05-pool-pop-without-run', prop='C05', clause='D3', edits=[
         (PT_H, "                start.run_body( range_pool.back() );\n                range_pool.pop_back();", "                if (range_pool.size() < 7) start.run_body( range_pool.back() );\n                range_pool.pop_back();")]),
+    dict(name='c05-seed3-count-rounded-up-by-adding-step', prop='C05', clause='D6', edits=[(PF_H,
+        "        Index end = (last - first - Index(1)) / step + Index(1);", "        Index end = Index((last - first) + (step - Index(1))) / step;")]),
     # ---------------------------------------------------------------- C06
     dict(name='c06-join-swapped', prop='C06', clause='D1', edits=[
         (PR_H, "            left_body.join(*zombie_space.begin());", "            zombie_space.begin()->join(left_body);")]),
@@ -1085,6 +1087,10 @@ BENIGN = [
         } while (!popped);
         r1::notify_bounded_queue_monitor(my_monitors, cbq_slots_avail_tag, target);
     }""")]),
+    dict(name='c05-b-count-by-quotient-and-remainder', prop='C05', edits=[(PF_H,
+        "        Index end = (last - first - Index(1)) / step + Index(1);", "        Index end = Index((last - first) / step + Index((last - first) % step != 0));")]),
+    dict(name='c05-b-split-point-from-end', prop='C05', edits=[('include/oneapi/tbb/blocked_range.h',
+        "        Value middle = r.my_begin + (r.my_end - r.my_begin) / 2u;", "        Value middle = r.my_end - (r.my_end - r.my_begin + 1u) / 2u;")]),
     dict(name='c05-b-ratio-operands-commuted', prop='C05', edits=[('include/oneapi/tbb/blocked_range2d.h',
         "        if ( my_rows.size()*double(my_cols.grainsize()) < my_cols.size()*double(my_rows.grainsize()) ) {",
         "        if ( double(my_cols.grainsize())*my_rows.size() < double(my_rows.grainsize())*my_cols.size() ) {")]),
